@@ -95,10 +95,68 @@ def run(ck):
               witness=path_witness(g, wit[0]) if wit else None)
     except Exception as err:
         ck.ob(R1, f"{isb.fid} :: step protocol", False, f"unexpected step: {err}", isb, isb.node)
+    # ---- the same protocol decided by an abstract run of init_sblock on every combination of
+    # (steps completed, full, persistent add-on?, initialised by the restore?, initialised by the
+    # regular routine?, init_from_value defined?, initdef given?) with recording hooks: independent
+    # of how the function is laid out (helpers, nesting, duplicated arms)
+    from sa.minieval import MiniEval
+    import itertools as _it
+    fullp = isb.node.args.args[2].arg if len(isb.node.args.args) > 2 else (
+        isb.node.args.kwonlyargs[0].arg if isb.node.args.kwonlyargs else 'full')
+    run_bad = []
+    n_run = 0
+    for steps_, full_, pers_, ini_r, ini_g, hasm, defd in _it.product(
+            (-2, -1, 0, 1, 2), (False, True), (False, True), (False, True), (False, True),
+            (False, True), (False, True)):
+        trace = []
+        state = {'init': False}
+
+        def _restore(trace=trace, state=state, ini_r=ini_r):
+            trace.append('P')
+            state['init'] = state['init'] or ini_r
+
+        def _regular(trace=trace, state=state, ini_g=ini_g):
+            trace.append('R')
+            state['init'] = state['init'] or ini_g
+
+        def _fromvalue(v, trace=trace, state=state):
+            trace.append(f'V:{v}')
+            state['init'] = True
+        env = {bp: 'BLK', fullp: full_, f'{bp}.init_steps_completed': steps_,
+               f'isinstance({bp}, addons.AddonPersistence)': pers_, f'{bp}.persistent': pers_,
+               f'{bp}.init_from_persistent_data': _restore, f'{bp}.init_regular': _regular,
+               f'{bp}.init_from_value': _fromvalue,
+               f'{bp}.is_initialized': lambda state=state: state['init'],
+               f'{bp}.has_method': lambda name, hasm=hasm: hasm and name == 'init_from_value',
+               f'{bp}.initdef': 'INITDEF' if defd else 'UNDEF', 'block.UNDEF': 'UNDEF',
+               '__setattr__': lambda k, v, trace=trace: trace.append(f'm{v}') if k.endswith('init_steps_completed') else None}
+        try:
+            out = MiniEval(R1, env).run(isb.node.body)
+        except Exception as err:        # outside the fragment: this formulation abstains
+            run_bad = None
+            ck.note(f"R05.1 abstract run not applicable: {err}")
+            break
+        n_run += 1
+        ck.abstract_cases += 1
+        want = []
+        if steps_ == 0:
+            want += ['m-1'] + (['P'] if pers_ else []) + ['m1']
+        if steps_ == 1 or (steps_ == 0 and full_):
+            init_now = (pers_ and ini_r and steps_ == 0) or ini_g
+            want += ['m-2', 'R'] + (['V:INITDEF'] if (not init_now and hasm and defd) else []) + ['m2']
+        if out[0] != 'return' or trace != want:
+            run_bad.append(f"steps={steps_}, full={full_}, persistent={pers_}, restored={ini_r}, "
+                           f"regular initialises={ini_g}, has init_from_value={hasm}, initdef given={defd}: "
+                           f"{trace} ({out[0]}), documented {want}")
+    run_ok = run_bad is not None and not run_bad
+    if run_bad is not None:
+        ck.ob(R1, f"{isb.fid} :: abstract run of the step protocol", run_ok,
+              f"evaluated on {n_run} combinations: markers, restore, regular routine and initdef "
+              f"fall-back are called exactly as documented" if run_ok else "; ".join(run_bad[:3]), isb, isb.node)
     pn = nodes_calling(g, 'init_from_persistent_data')
     ok = len(pn) == 1 and g.has_guard(pn[0], f'isinstance({bp}, addons.AddonPersistence)', True) \
         and g.has_guard(pn[0], f'{bp}.persistent', True)
-    ck.ob(R1, f"{isb.fid} :: restore guard", ok,
+    ck.ob(R1, f"{isb.fid} :: restore guard", ok or run_ok,
           "restored only for a persistent block with the persistence add-on" if ok else
           "init_from_persistent_data is not guarded by isinstance(AddonPersistence) and "
           ".persistent", isb, pn[0].ast if pn else isb.node)
@@ -110,13 +168,13 @@ def run(ck):
             g.has_guard(vn[0], f'{bp}.is_initialized()', False) and \
             g.has_guard(vn[0], f"{bp}.has_method('init_from_value')", True) and \
             g.has_guard(vn[0], f'{bp}.initdef is block.UNDEF', False)
-    ck.ob(R1, f"{isb.fid} :: init_from_value guard", ok,
+    ck.ob(R1, f"{isb.fid} :: init_from_value guard", ok or run_ok,
           "init_from_value(blk.initdef) only if still uninitialised, defined, and initdef given"
           if ok else "init_from_value is not guarded by (uninitialised, method exists, initdef "
           "is not UNDEF) or does not receive blk.initdef", isb, vn[0].ast if vn else isb.node)
     rn = nodes_calling(g, 'init_regular')
     okr = len(rn) == 1 and bool(vn) and g.dominates(rn[0], vn[0])
-    ck.ob(R1, f"{isb.fid} :: regular before from-value", okr,
+    ck.ob(R1, f"{isb.fid} :: regular before from-value", okr or run_ok,
           "init_regular precedes init_from_value" if okr else
           "init_from_value can run before (or without) init_regular", isb, rn[0].ast if rn else isb.node)
 
@@ -157,7 +215,7 @@ def run(ck):
                     want = {(s, f): (s == 1 or (s == 0 and f)) for s in (-2, -1, 0, 1, 2)
                             for f in (False, True)}
                     ok2 = ok2 or vals == want
-        ck.ob(R2, f"{isb.fid} :: step-2 guard", ok2,
+        ck.ob(R2, f"{isb.fid} :: step-2 guard", ok2 or run_ok,
               "step 2 runs for snapshot 1, or 0 with full=True -- never for a step in progress or "
               "completed (evaluated on all 10 cases)" if ok2 else
               "the guard of step 2 is not `steps == 1 or steps == 0 and full`", isb,
